@@ -100,6 +100,49 @@ def line_ends_only_on_collection_points(x, y):
     return bool(lines) and all(key(l[0]) in ypts and key(l[-1]) in ypts for l in lines)
 
 
+def collection_polygon_swallows_hole(x, y):
+    """Exact structural feature of one recorded defect (AbstractPreparedPolygonContains::eval / PreparedPolygonContainsProperly: the test 'a ring of
+    the prepared target lies inside a test polygon' runs only for test type ids POLYGON / MULTIPOLYGON): x is a GEOMETRYCOLLECTION (type id,
+    not a Multi*) with a polygon element P, y has a polygon with a hole ring H, and every vertex of H lies strictly inside P (inside P's
+    shell, outside P's holes).  Rational arithmetic on the exact double values."""
+    from fractions import Fraction
+    try:
+        gx, gy = gtok.parse(x)[1], gtok.parse(y)[1]
+    except Exception:
+        return False
+    if gx[0] != "GC":
+        return False
+    def leaves(e, out):
+        if e[0] in gtok.COLL:
+            for k in e[1]: leaves(k, out)
+        else:
+            out.append(e)
+        return out
+    def ring(sq):
+        return [(Fraction(gtok._dec(p[0])), Fraction(gtok._dec(p[1]))) for p in sq[1]]
+    def locate(rg, p):          # 1 inside, 0 on the ring, -1 outside (even-odd, exact)
+        inside = False
+        for (ax, ay), (bx, by) in zip(rg, rg[1:]):
+            c = (bx - ax) * (p[1] - ay) - (by - ay) * (p[0] - ax)
+            if c == 0 and min(ax, bx) <= p[0] <= max(ax, bx) and min(ay, by) <= p[1] <= max(ay, by):
+                return 0
+            if (ay <= p[1] < by and c > 0) or (by <= p[1] < ay and c < 0):
+                inside = not inside
+        return 1 if inside else -1
+    try:
+        polys = [[ring(r) for r in e[1]] for e in leaves(gx, []) if e[0] == "Y" and e[1] and e[1][0][1]]
+        holes = [ring(r) for e in leaves(gy, []) if e[0] == "Y" for r in e[1][1:] if r[1]]
+    except Exception:
+        return False
+    if sum(len(r) for P in polys for r in P) * max(1, sum(len(h) for h in holes)) > 200000:
+        return False
+    for P in polys:
+        for H in holes:
+            if all(locate(P[0], v) == 1 and all(locate(hp, v) == -1 for hp in P[1:]) for v in H):
+                return True
+    return False
+
+
 def signature(a, b, verdict):
     """conjunct: which agreement fails; gc: a GeometryCollection is involved; nearIncidence (gc false): beyond shared
     vertices, a vertex lies within rounding distance of a segment of the other geometry WITHOUT being exactly on it, or two
@@ -132,6 +175,14 @@ def signature(a, b, verdict):
         sig["mixedDimCollection"] = True
         if group in ("relate-paths", "predicate-vs-matrix") and (line_ends_only_on_collection_points(a, b) or line_ends_only_on_collection_points(b, a)):
             sig["lineEndsOnlyOnCollectionPoints"] = True
+    # prepared-vs-matrix: A is the prepared side, B the test geometry; -swapped: the other way round
+    if not gc and ((conj == "prepared-vs-matrix" and collection_polygon_swallows_hole(b, a)) or
+                   (conj == "prepared-vs-matrix-swapped" and collection_polygon_swallows_hole(a, b))):
+        # which prepared predicates are wrong: 5 contains, 7 covers, 9 containsProperly (0 intersects, 1 disjoint, ... would be another defect)
+        names = ["intersects", "disjoint", "touches", "crosses", "within", "contains", "overlaps", "covers", "coveredBy", "containsProperly"]
+        qd = [x[6:] for x in t if x.startswith("qdiff=")]
+        sig["collectionPolygonSwallowsHole"] = True
+        sig["wrongPrepared"] = "+".join(names[int(i)] for i in qd[0].split("+") if i.isdigit() and int(i) < 10) if qd else "?"
     if gc:
         pass
     elif group == "self":
